@@ -35,6 +35,13 @@ def gen_cases(tier, seed, ctx):
             w = os.path.join(ctx['work'], 'pl%d' % len(cases))
             cases.append(E.Case('t%d' % len(cases), 'THREADS %s %d %d %d %s' % (w, nt, rounds * 2, s, ['fd', 'cb', 'off'][k % 3]),
                                 dict(kind='threads-plain-%d' % nt, variant='plain')))
+    # ... and with the bundled checksum code (the OpenSSL build never runs it): hash-heavy rounds, many threads
+    for nt, rounds in ((8, 3), (16, 2), (4, 4)) if tier == 'quick' else ((8, 6), (16, 4), (4, 8), (12, 4)):
+        for k in range(2 if tier == 'quick' else 6):
+            s = rnd.randrange(1, 10**6)
+            w = os.path.join(ctx['work'], 'bd%d' % len(cases))
+            cases.append(E.Case('t%d' % len(cases), 'THREADS %s %d %d %d %s' % (w, nt, rounds, s, ['off', 'cb'][k % 2]),
+                                dict(kind='threads-bundled-%d' % nt, variant='bundled')))
     return cases
 
 def project(impl, case):
@@ -57,7 +64,7 @@ def run(tier, seed, replay=None):
             "file / a damaged copy / a truncated copy with the error text, chunk-wise access in scrambled order, copy of shared chunks into "
             "a second file with missing-range computation and a zckDL object, range strings), logging to an fd / a callback / off; the same "
             "workloads are then run serially and the per-operation results compared by the model's interleaving semantics; ThreadSanitizer "
-            "build (data races end the case) and plain build; distinct by (threads, rounds, seed, log mode)")
+            "build (data races end the case), plain build and the build with the bundled checksum code; distinct by (threads, rounds, seed, log mode)")
     work_env = {'TSAN_OPTIONS': 'exitcode=66 halt_on_error=1 second_deadlock_stack=1 log_path=%s' % os.path.join(E.VERIF, '.cache', 'tsan-c19')}
     def gc(tier, seed, ctx):
         work_env['TSAN_OPTIONS'] = 'exitcode=66 halt_on_error=1 log_path=%s' % os.path.join(ctx['work'], 'tsan')
